@@ -125,7 +125,11 @@ def main():
     # 1. rebuild
     props_mod = "PsecModel.Props." + pid
     has_props = os.path.exists(os.path.join(core.LEAN_DIR, "PsecModel", "Props", pid + ".lean"))
-    targets = getattr(mod, "BUILD_TARGETS", ["psecdrv"] + ([props_mod] if has_props else []))
+    targets = list(getattr(mod, "BUILD_TARGETS", ["psecdrv"] + ([props_mod] if has_props else [])))
+    extra_mods = list(getattr(mod, "EXTRA_MODULES", []))          # further proof modules of this property
+    if a.tier == "thorough":
+        extra_mods += list(getattr(mod, "THOROUGH_MODULES", []))  # expensive kernel-evaluated tests
+    targets += extra_mods
     ok, out = core.lake_build(targets)
     build_failed = not ok
     if build_failed:
@@ -139,7 +143,7 @@ def main():
     theorems = list(mod.OBLIGATIONS)
     aud = {"theorems": {}, "checker_cmd": ""}
     if not build_failed:
-        aud = core.audit(pid, theorems, getattr(mod, "AUDIT_IMPORT", props_mod if has_props else "PsecModel.Exec"))
+        aud = core.audit(pid, theorems, [getattr(mod, "AUDIT_IMPORT", props_mod if has_props else "PsecModel.Exec")] + list(getattr(mod, "EXTRA_MODULES", [])))
     hits = core.scan_sources()
     discharged = sum(1 for t in theorems if aud["theorems"].get(t, {}).get("ok"))
     for t in theorems:
@@ -150,7 +154,7 @@ def main():
         broken.append("forbidden construct in Lean sources: " + h)
     lc = None
     if a.tier == "thorough" and not build_failed and has_props:
-        lc = core.leanchecker(props_mod)
+        lc = core.leanchecker([props_mod] + extra_mods)
         if lc["rc"] != 0:
             broken.append("leanchecker rejected the compiled modules of " + props_mod + ": " + lc["tail"][-400:])
 
